@@ -569,6 +569,7 @@ def run_linear2d(case, ctx, r):
 
 
 def run_case(case, ctx):
+    np.set_printoptions(legacy="1.25")     # plain floats in failure details
     r = R()
     kind = case["kind"]
     if kind == "pinhole":
